@@ -72,6 +72,16 @@ CHECKS = {
         "note": "Trusted: Python ast, E1 resolver, numpy slicing / np.sum semantics.",
         "technique": "static analysis: abstract evaluation + normalised guard/bounds comparison; traversal typestate; must-raise; view wiring rule",
     },
+    "C11": {
+        "text": "Decides, for every input and every access history at once, the ownership shape that makes the behaviour impossible to break, from a whole-project effect analysis (ownership tags parameter / field-of-self / cached-property value / "
+                "preload slot / fresh, in-place writes per function, bottom-up to a fixpoint over the resolved call graph): no function writes in place into storage reachable from its parameters (20 listed in-place helpers excepted, whose "
+                "every caller must hand them only arrays it allocated itself); no function writes into a cached property's value except write-then-evict of a value every implementation allocates freshly; fields of self are written in place "
+                "only by constructors and never when the constructor chain (composed through super().__init__) stored a constructor argument there un-copied; no query rebinds or deletes fields of self (listed explicit setters excepted); a "
+                "shallow clone whose contents are replaced drops every cached-property value; every draw from the global numpy RNG in a seeded function is unconditionally preceded by seeding with that seed and every caller forwards its seed. "
+                "Not decided: value-level equality of repeated computations (numerical determinism of numpy / scipy / numba is assumed), aliasing through objects whose type the resolver cannot see.",
+        "note": "Trusted: Python ast, E1 resolver, the table of numpy calls that return views vs copies (sa/effect.py), the listed in-place helpers (each with its reason). Known finding: MapperValued.values_masked.",
+        "technique": "static analysis: interprocedural effect / ownership analysis (alias tags, mutation summaries to a fixpoint), who-may-write rules, clone / cache-drop typestate, must-precede rule for RNG seeding",
+    },
     "C08": {
         "text": "Decides, for every dataset / mask / model: each of the 21 fit_util functions equals its definition as a canonical form (data - model, (r/n)^2, sum log(2 pi n^2), -(chi2+norm)/2, residual/data, "
                 "evidence polarities -1/2(chi2 + sHs + logdet(F+H) - logdet(H) + norm)); every _with_mask_ variant restricts EVERY array operand by mask == 0 (where= + zero out=, or boolean selection) so masked values cannot reach a sum; "
